@@ -223,7 +223,7 @@ m('SCHED-handler-check-then-act', H, '''        {
             let payment_state = payments
                 .get_mut(trampoline.invoice.payment_hash())
                 .expect("payment state was just inserted");
-''', ['C05','C06','C07','C02'])
+''', ['C05','C06','C02'])
 m('SCHED-state-taken-out-and-put-back', H, '''    let (max_fee_msat, cltv_expiry) = {
         let payments = payments.lock().await;
         let payment = payments
@@ -250,7 +250,7 @@ m('SCHED-state-taken-out-and-put-back', H, '''    let (max_fee_msat, cltv_expiry
             .insert(*trampoline.invoice.payment_hash(), payment);
         (max_fee_msat, cltv_expiry)
     };
-''', ['C06','C05','C07','C02'])
+''', ['C06','C05','C02'])
 m('SCHED-height-lost-update', B, '''    let mut current_height = current_height.lock().await;
     let updated = if new_height > *current_height {
         *current_height = new_height;
